@@ -2,7 +2,7 @@
 import re
 
 from analysis import (Prov, Guards, fmt, fmt_short, walk, roots, short, comparison, find_calls, callee_matches,
-                      must_pass, writes_into, aliases_of, linear, normalised_cmp, const_int_of, cmp_intervals, propagate, test_edges, emptiness_test)
+                      must_pass, writes_into, aliases_of, linear, normalised_cmp, const_int_of, cmp_intervals, propagate, test_edges, emptiness_test, closures_of, canon, closure_return_in_caller_terms)
 from facts import AnchorError, strip_closure
 from harness import Rule, guarded
 import c13
@@ -28,10 +28,24 @@ SV = "crate::service::Service::"
 
 
 def local_named(b, name):
-    for i, l in enumerate(b.locals):
-        if l.get("name") == name:
-            return i
-    raise AnchorError("%s: no local named %s" % (b.path, name))
+    """the local of that name; when several have it (a helper that used the same names was inlined), the one that is written to most"""
+    cands = [i for i, l in enumerate(b.locals) if l.get("name") == name]
+    if not cands:
+        raise AnchorError("%s: no local named %s" % (b.path, name))
+    if len(cands) == 1:
+        return cands[0]
+
+    def weight(i):
+        n = 0
+        for blk in b.blocks:
+            if blk.cleanup or blk.idx not in b.live_blocks():
+                continue
+            for s in blk.stmts:
+                if s.k == "a" and ((s.lhs.local == i and not (s.rv.k == "use" and s.rv.ops and s.rv.ops[0].place is not None and s.rv.ops[0].place.is_local())) or
+                                   (s.rv.k == "ref" and s.rv.j.get("bk") == "mut" and s.rv.place is not None and s.rv.place.local == i)):
+                    n += 1
+        return n
+    return max(cands, key=weight)
 
 
 def r1(ctx):
@@ -45,7 +59,7 @@ def r1(ctx):
     nts = local_named(b, "nodes_to_send")
     ws = writes_into(b, p, nts)
     own = [(bi, src) for bi, m, src, t in ws if m == "push" and "local_enr" in fmt_short(src[0])]
-    tbl = [(bi, src) for bi, m, src, t in ws if m == "push" and "nodes_by_distances" in fmt_short(src[0])]
+    tbl = [(bi, src) for bi, m, src, t in ws if m in ("push", "extend") and "nodes_by_distances" in fmt_short(src[0])]
     other = [(bi, m, fmt_short(src[0]) if src else "") for bi, m, src, t in ws if (bi not in [x[0] for x in own + tbl])]
     rule.check(len(own) == 1 and len(tbl) == 1 and not other, "nodes_to_send receives the local record and filtered table entries only", "served|sources",
                "nodes_to_send is also written by %s" % other, loc=b.loc(b.line))
@@ -58,6 +72,16 @@ def r1(ctx):
             some_first += [(bi, tb) for v, tb in t.vals if v == 1]
         if s_ == "slice::first(distances).0":
             zero_edges += [(bi, tb) for v, tb in t.vals if v == 0]
+    if not zero_edges:
+        for bi, t, e in g.switches():
+            c_ = comparison(e)
+            if c_ and c_[0] in ("==", "!="):
+                sd = [canon(c_[1]), canon(c_[2])]
+                fs = [x for x in sd if x[0] == "call" and re.search(r"slice(::<.*>)?::first$", short(x[1])) and "distances" in fmt_short(x)]
+                zs = [x for x in sd if x[0] == "agg" and x[1].endswith("Option::Some") and const_int_of(canon(dict(x[2])["0"])) == 0]
+                if fs and zs:
+                    f_, tr_ = g.bool_edges(bi)
+                    zero_edges.append((bi, tr_ if c_[0] == "==" else f_))
     sorts = [bi for bi, t in b.calls() if callee_matches(t, r"slice::<impl \[T\]>::sort(_unstable)?$", r"slice::sort(_unstable)?$")]
     firsts = [bi for bi, t in b.calls() if callee_matches(t, r"slice::<impl \[T\]>::first$", r"slice::first$")]
     ok = bool(zero_edges) and bool(own)
@@ -94,6 +118,16 @@ def r1(ctx):
         src = tbl[0][1][0]
         fm = [x for x in walk(src) if x[0] == "call" and short(x[1]).endswith("Iterator::filter_map")]
         okf = False
+        fl = [x for x in walk(src) if x[0] == "call" and re.search(r"Iterator>?::filter$", short(x[1])) and len(x[2]) == 2]
+        mp = [x for x in walk(src) if x[0] == "call" and re.search(r"Iterator>?::map$", short(x[1])) and len(x[2]) == 2]
+        if not fm and fl and mp:
+            # `.filter(|e| e.node.key.preimage() != &requester).map(|e| e.node.value.clone())`: the same thing in two stages
+            fret = closure_return_in_caller_terms(facts, fl[0][2][1], [("unknown", "entry")])
+            mret = closure_return_in_caller_terms(facts, mp[0][2][1], [("unknown", "entry")])
+            c_ = comparison(fret) if fret is not None else None
+            sides = {fmt_short(c_[1]), fmt_short(c_[2])} if c_ else set()
+            okf = bool(c_) and c_[0] == "!=" and any("Key::preimage(" in x and ".node.key" in x for x in sides) and any(x.endswith("node_address.node_id") for x in sides) and \
+                mret is not None and ".node.value" in fmt_short(mret) and mp[0] in list(walk(src)) and fl[0] in list(walk(mp[0]))
         if fm and fm[0][2][1][0] == "agg":
             cb = facts.bodies.get(fm[0][2][1][1].split(":", 1)[1])
             if cb is not None:
@@ -161,11 +195,11 @@ def r2_r3(ctx):
         raise AnchorError("send_nodes_response: split loop not identified (%s)" % loop)
     H = loop[0]
     inloop = b.reachable(H) & {x for x in range(len(b.blocks)) if H in b.reachable(x)}
-    opens = [bi for bi, m, src, t in writes_into(b, p, tsn) if m == "push" and t.args[0].place is not None and
+    opens = [bi for bi, m, src, t in writes_into(b, p, tsn, follow_moves=True) if m == "push" and t.args[0].place is not None and
              t.args[0].place.local in aliases_of(b, tsn) and not any(callee_matches(tt, r"index_mut$") for tt in [b.blocks[x].term for x in range(len(b.blocks))] if False)]
     # pushes directly onto to_send_nodes (not onto an element of it): the destination is a plain &mut of the local
     direct = []
-    for bi, m, src, t in writes_into(b, p, tsn):
+    for bi, m, src, t in writes_into(b, p, tsn, follow_moves=True):
         if m != "push":
             continue
         d = t.args[0].place.local
@@ -228,15 +262,28 @@ def r2_r3(ctx):
     # total = rpc_index + 1
     tot_ok = 0
     for pth, cb in facts.bodies.items():
-        if strip_closure(pth) != SV + "send_nodes_response" or pth == b.path:
+        if strip_closure(pth) != SV + "send_nodes_response":
             continue
         cp = Prov(cb, facts)
         for blk in cb.blocks:
             for s in blk.stmts:
                 if s.k == "a" and s.rv.k == "agg" and s.rv.j.get("variant") == "Nodes" and s.rv.j.get("def") == "crate::rpc::ResponseBody":
                     f = dict(zip(s.rv.j["fields"], [cp.operand(o) for o in s.rv.ops]))
-                    lf = linear(f["total"], lambda x: "i" if x == ("upvar", "rpc_index") else None)
+                    if pth == b.path and const_int_of(canon(f["total"])) == 1:
+                        continue        # the single-packet (empty) answer built directly
+                    idx_txt = fmt_short(p.local(idx))
+                    lf = linear(f["total"], lambda x: "i" if x == ("upvar", "rpc_index") or (pth == b.path and x[0] == "phi" and "cycle" in fmt_short(x) and any(const_int_of(a) == 0 for a in x[1]) and
+                                                                                              all(const_int_of(a) == 0 or "cycle" in fmt_short(a) for a in x[1])) else None)
                     okk = lf == ({"i": 1}, 1)
+                    if not okk:
+                        # `total` computed outside as the number of packets itself: `to_send_nodes.len() as u64`
+                        for cb2, cp2, to_caller in closures_of(facts, b):
+                            if cb2.path == cb.path:
+                                tv = canon(to_caller(f["total"]))
+                                while tv[0] == "cast":
+                                    tv = canon(tv[1])
+                                if tv[0] == "call" and short(tv[1]).endswith("Vec::len") and tv[2] and set(roots(tv[2][0])) & set(roots(p.local(tsn))):
+                                    okk = True
                     tot_ok += okk
                     r2.check(okk, "total = rpc_index + 1", "total|formula", "NODES responses announce total = %s" % fmt_short(f["total"]), loc=cb.loc(s.line))
     if not tot_ok:
@@ -266,7 +313,7 @@ def r2_r3(ctx):
                 Eset.add(l)
         except Exception:
             pass
-    appends = [bi for bi, m, src, t in writes_into(b, p, tsn) if m == "push" and bi in inloop and bi not in inside]
+    appends = [bi for bi, m, src, t in writes_into(b, p, tsn, follow_moves=True) if m == "push" and bi in inloop and bi not in inside]
     # the loop item: the named local bound to `(iter.next() as Some).0`; it is "placed" where it is moved (into a push, or into the
     # array behind `vec![enr]`)
     items = []
